@@ -224,14 +224,14 @@ def gen_cnn(tier, rng):
     st = {"input_shape": [2, 16, 16], "num_outputs": 3, "layer_norm": False, "init_layers": False}
     cfg = {"min_hidden_layers": 1, "max_hidden_layers": 3, "min_channel_size": 4, "max_channel_size": 8}
     c, e = bfs("cnn", st, cfg, {"channels": [4], "kernels": [3], "strides": [1]}, cnn_moves(quick), cnn_to_init,
-               limit=1500 if quick else 30000)
+               limit=30000)
     cases += c; ex &= e
     st2 = {"input_shape": [1, 34, 30], "num_outputs": 2, "layer_norm": True, "init_layers": False}
     cfg2 = {"min_hidden_layers": 1, "max_hidden_layers": 2, "min_channel_size": 8, "max_channel_size": 24}
     c, e = bfs("cnn", st2, cfg2, {"channels": [8], "kernels": [4], "strides": [2]}, cnn_moves(True), cnn_to_init,
                limit=600 if quick else 30000, tag="bfs-drawn")
     cases += c; ex &= e
-    nw, ln = (4, 40) if quick else (30, 300)
+    nw, ln = (4, 40) if quick else (12, 150)
     for w in range(nw):
         hw = rng.choice([(32, 32), (48, 40), (64, 64)] if not quick else [(32, 32), (40, 36)])
         static = {"input_shape": [3, *hw], "num_outputs": rng.choice([4, 16]), "layer_norm": rng.random() < 0.4, "init_layers": False}
@@ -249,3 +249,138 @@ def gen_cnn(tier, rng):
 
 
 GENERATORS.append(gen_cnn)
+
+
+# ------------------------------------------------------------------ networks
+NET_ENC_INIT = {
+    "vector": lambda small: {"layers": 1, "widths": [8]} if small else {"layers": 2, "widths": [64, 64]},
+    "image": lambda small: {"layers": 2, "widths": [8, 8], "kernels": [3, 3], "strides": [1, 1]},
+    "simba": lambda small: {"layers": 1, "widths": [32]},
+    "lstm": lambda small: {"layers": 1, "widths": [32]},
+}
+NET_ENC_METHODS = {
+    "vector": ["encoder.add_node", "encoder.remove_node"], "simba": ["encoder.add_node", "encoder.remove_node"],
+    "lstm": ["encoder.add_node", "encoder.remove_node"],
+    "image": ["encoder.add_channel", "encoder.remove_channel", "encoder.change_kernel"],
+}
+HEAD_METHODS = ["head_net.add_layer", "head_net.remove_layer", "head_net.add_node", "head_net.remove_node"]
+
+
+def net_enc_cfg(obs, rng, partial):
+    if obs == "vector":
+        c = {}
+        if partial >= 1 and rng.random() < 0.5:
+            c["activation"] = rng.choice(["Tanh", "ELU", "ReLU"])
+        if partial >= 1 and rng.random() < 0.4:
+            c["output_activation"] = rng.choice(["Sigmoid", "Tanh"])
+        if partial >= 1 and rng.random() < 0.4:
+            c["layer_norm"] = rng.random() < 0.5
+        if partial >= 2:
+            c.update(min_hidden_layers=1, max_hidden_layers=3, min_mlp_nodes=16, max_mlp_nodes=160)
+        return c
+    if obs == "image":
+        c = {"min_channel_size": 8, "max_channel_size": 48, "init_layers": False}
+        if rng.random() < 0.5:
+            c["layer_norm"] = rng.random() < 0.5
+        return c
+    if obs == "simba":
+        return {"min_mlp_nodes": 16, "max_mlp_nodes": 160} if partial else {}
+    return {"min_hidden_size": 16, "max_hidden_size": 160} if partial else {}
+
+
+def gen_net(tier, rng):
+    cases, ex = [], True
+    quick = tier == "quick"
+    # exhaustive walk of a small Q network: every advertised method, clone before every step
+    cfg = {"min_latent_dim": 8, "max_latent_dim": 40,
+           "encoder_config": {"min_hidden_layers": 1, "max_hidden_layers": 3, "min_mlp_nodes": 4, "max_mlp_nodes": 12},
+           "head_config": {"min_hidden_layers": 1, "max_hidden_layers": 2, "min_mlp_nodes": 4, "max_mlp_nodes": 12}}
+    init = {"latent": 16, "enc": {"layers": 1, "widths": [8]}, "head": [8]}
+
+    def moves(a):
+        out = [S("add_latent_node", numb_new_nodes=8), S("remove_latent_node", numb_new_nodes=8),
+               S("add_latent_node", (0,)), S("remove_latent_node", (1,)), S("add_latent_node", (2,)),
+               S("encoder.add_node", hidden_layer=0, numb_new_nodes=4), S("encoder.remove_node", hidden_layer=0, numb_new_nodes=4),
+               S("encoder.add_node", (0, 0)),
+               S("head_net.add_layer", (0, 0)), S("head_net.remove_layer", (0, 0)),
+               S("head_net.add_node", hidden_layer=5, numb_new_nodes=4), S("head_net.remove_node", hidden_layer=0, numb_new_nodes=4)]
+        return out
+
+    def to_init(d):
+        return {"latent": d["latent"], "enc": d["enc"], "head": d["head"]["widths"]}
+
+    proto = {"net": "q", "obs": "vector", "clone": True}
+
+    def bfs_net(tag):
+        seen, queue, out = {repr(init)}, [init], []
+        while queue:
+            a = queue.pop(0)
+            for st in moves(a):
+                case = dict(proto, block="net", static={}, cfg=cfg, init=a, steps=[st], every=0, src=tag)
+                out.append(case)
+                try:
+                    rec = cached_run(case)["steps"][0]
+                    if rec["error"] is not None or rec["desc"] is None:
+                        continue
+                    nxt = to_init(rec["desc"])
+                except Exception:
+                    continue
+                if repr(nxt) not in seen:
+                    seen.add(repr(nxt)); queue.append(nxt)
+                    CACHE.pop(B.key_case(case), None); case["every"] = 1
+        return out
+    cases += bfs_net("bfs")
+    # seeded clone-and-mutate walks over every network class x observation family, partial configurations included
+    combos = [(n, o) for n in ("q", "value", "det", "stoch", "contq") for o in ("vector", "image", "simba", "lstm")
+              if not (n == "contq" and o == "lstm")] + [("rainbow", "vector")]
+    rng.shuffle(combos)
+    ln = 12 if quick else 60
+    for idx, (n, o) in enumerate(combos if not quick else combos[:12]):
+        partial = idx % 3
+        ec = net_enc_cfg(o, rng, partial)
+        hc = {} if partial == 0 else {"min_mlp_nodes": 16, "max_mlp_nodes": 160}
+        if rng.random() < 0.3 and n != "rainbow":
+            hc["layer_norm"] = False
+        c = {"min_latent_dim": 8, "max_latent_dim": 128, "encoder_config": ec, "head_config": hc}
+        i = {"latent": rng.choice([16, 32, 64]), "enc": NET_ENC_INIT[o](False), "head": [rng.choice([32, 64])]}
+        meths = ["add_latent_node", "remove_latent_node"] + NET_ENC_METHODS[o] + HEAD_METHODS
+        steps = [S(rng.choice(meths), (rng.randrange(1000), rng.randrange(1000))) for _ in range(ln)]
+        cases.append({"block": "net", "net": n, "obs": o, "clone": True, "static": {}, "cfg": c, "init": i, "steps": steps,
+                      "every": 4, "src": "walk"})
+    # the minimal partial configuration of the reconnaissance (R20)
+    for n in ("q", "value", "det"):
+        cases.append({"block": "net", "net": n, "obs": "vector", "clone": True, "static": {},
+                      "cfg": {"min_latent_dim": 8, "max_latent_dim": 128, "encoder_config": {}, "head_config": {}},
+                      "init": {"latent": 32, "enc": {"layers": 2, "widths": [32, 32]}, "head": [32]},
+                      "steps": [S("head_net.add_node", (0, 0)), S("encoder.add_node", (1, 1)), S("add_latent_node", (1,))], "every": 1, "src": "walk"})
+    return cases, ex
+
+
+GENERATORS.append(gen_net)
+
+
+# ------------------------------------------------------------------ two modules built from one configuration
+def gen_sibling(tier, rng):
+    cases = []
+    n = 3 if tier == "quick" else 12
+    for _ in range(n):
+        cfg = {"min_hidden_layers": 1, "max_hidden_layers": 3, "min_mlp_nodes": 16, "max_mlp_nodes": 200}
+        steps = [S(rng.choice(["add_node", "remove_node", "add_layer", "add_node"]), (rng.randrange(100), rng.randrange(100))) for _ in range(4)]
+        cases.append({"block": "mlp", "static": dict(MLP_STATIC), "cfg": cfg, "init": [64, 64], "steps": steps, "every": 4, "src": "sibling", "sibling": True})
+        st = {"input_shape": [2, 20, 20], "num_outputs": 3, "layer_norm": False, "init_layers": False}
+        ccfg = {"min_hidden_layers": 1, "max_hidden_layers": 4, "min_channel_size": 8, "max_channel_size": 64}
+        steps = [S(rng.choice(["add_channel", "remove_channel", "change_kernel", "add_layer", "add_channel"]), (rng.randrange(100), rng.randrange(100))) for _ in range(4)]
+        cases.append({"block": "cnn", "static": st, "cfg": ccfg, "init": {"channels": [16, 16], "kernels": [3, 3], "strides": [1, 1]},
+                      "steps": steps, "every": 4, "src": "sibling", "sibling": True})
+        o = rng.choice(["vector", "image"])
+        ec = {"min_mlp_nodes": 16, "max_mlp_nodes": 200} if o == "vector" else {"min_channel_size": 8, "max_channel_size": 64, "init_layers": False}
+        meths = NET_ENC_METHODS[o] + ["head_net.add_node", "head_net.add_layer"]
+        steps = [S(rng.choice(meths), (rng.randrange(100), rng.randrange(100))) for _ in range(4)]
+        cases.append({"block": "net", "net": rng.choice(["q", "value", "det"]), "obs": o, "clone": False, "static": {},
+                      "cfg": {"min_latent_dim": 8, "max_latent_dim": 128, "encoder_config": ec, "head_config": {"min_mlp_nodes": 16, "max_mlp_nodes": 200}},
+                      "init": {"latent": 32, "enc": NET_ENC_INIT[o](False) if o == "image" else {"layers": 2, "widths": [32, 32]}, "head": [32]},
+                      "steps": steps, "every": 4, "src": "sibling", "sibling": True})
+    return cases, True
+
+
+GENERATORS.append(gen_sibling)
